@@ -1588,6 +1588,42 @@ def _loop_temporaries(loop, func_node):
     return out
 
 
+def _observable_carried(w, loop, func_node, assigned):
+    """names whose value at the START of an iteration (or after the loop) is observable: read before being
+    (re)assigned on some path of the body, in the loop test, or after the loop.  Everything else assigned in the
+    body is a per-iteration temporary, however it is spelled."""
+    seen = set()
+
+    def scan(x):
+        if isinstance(x, ast.AST):
+            for y in ast.walk(x):
+                if isinstance(y, ast.Name) and y.id in assigned:
+                    seen.add(y.id)
+    for st in w.loop_out.get(id(loop), []):
+        for k, v in st.env.items():
+            if isinstance(k, str) and not k.startswith("\0"):
+                if isinstance(v, ast.Name) and v.id == k:
+                    continue
+                scan(v)
+        seen.update(_formula_names(st.reach) & assigned)
+    for e in w.exits:
+        if e.node is not None and any(z is e.node for z in ast.walk(loop)):
+            scan(e.value)
+            seen.update(_formula_names(e.cond) & assigned)
+    for e in w.effects:
+        if any(l.node is loop for l in e.loops):
+            for p_ in e.parts():
+                scan(p_)
+            seen.update(_formula_names(e.reach) & assigned)
+    if isinstance(loop, ast.While):
+        scan(w.tests.get(id(loop)))
+    end = (loop.end_lineno, loop.end_col_offset)
+    for n in ast.walk(func_node):
+        if isinstance(n, ast.Name) and isinstance(n.ctx, ast.Load) and n.id in assigned and (n.lineno, n.col_offset) > end:
+            seen.add(n.id)
+    return seen
+
+
 class Item:
     def __init__(self, kind, head, cond):
         self.kind = kind
@@ -1709,6 +1745,7 @@ def summarize(func_node, canon, leaf=None, keep=()):
                 t_ = ast.Constant(bool(t_.value))
             raw.append(("loop-iter", [hdr, " while ", t_], True))
         assigned = w._assigned(n.body)
+        temps = (assigned - _observable_carried(w, n, func_node, assigned)) | (temps & set())
         for s in w.loop_out.get(id(n), []):
             for name in sorted(assigned - temps - tgt):
                 v = s.env.get(name)
@@ -2220,3 +2257,22 @@ def appended_in_loops(w):
                         for e in elts:
                             out.append((n, name, e, st.reach))
     return out
+
+
+def assign_atom(f, atom_text, val):
+    """formula with the opaque atom replaced by a constant"""
+    if f in (True, False) or f[0] == "set":
+        return f
+    if f[0] == "op":
+        return val if f[1] == atom_text else f
+    if f[0] == "not":
+        return f_not(assign_atom(f[1], atom_text, val))
+    parts = [assign_atom(g, atom_text, val) for g in f[1]]
+    return f_and(*parts) if f[0] == "and" else f_or(*parts)
+
+
+def matters_only_when(f, atom_text, cond):
+    """the truth of f depends on the atom only under cond: (f[atom=T] xor f[atom=F]) => cond"""
+    a, b = assign_atom(f, atom_text, True), assign_atom(f, atom_text, False)
+    diff = f_or(f_and(a, f_not(b)), f_and(f_not(a), b))
+    return entails(diff, cond)
